@@ -34,6 +34,29 @@ Theorem C24_partition_split : forall s parent key child s',
 Proof. exact split_partition. Qed.
 Print Assumptions C24_partition_split.
 
+(** A split that fails because its child names no peer on this store (the peer
+    builder rejects the child AFTER the parent was shrunk) never succeeds, keeps
+    the catalog a partition covering exactly the same keys, and leaves every
+    region's range and epoch as they were: the shrink is undone. *)
+Theorem C24_failed_split_restores : forall s parent key child s' ok,
+  partition (smem s) -> split_unhosted s parent key child = (s', ok) ->
+  ok = false /\ partition (smem s') /\ same_cover (smem s) (smem s') /\
+  (forall id, option_map r_reg (rfind id (smem s')) = option_map r_reg (rfind id (smem s))).
+Proof. exact split_unhosted_partition. Qed.
+Print Assumptions C24_failed_split_restores.
+
+(** Non-vacuity: on the catalog {1: [a, z)} a split at "m" with an unhostable
+    child goes through the shrink and the restore (the parent's entry is
+    rewritten), and the catalog is a partition. *)
+Example C24_failed_split_restores_example :
+  let p := {| r_reg := {| g_id := 1; g_start := [n2b 97]; g_end := [n2b 122]; g_ver := 4; g_conf := 1 |}; r_state := 1 |} in
+  let ch := {| r_reg := {| g_id := 2; g_start := []; g_end := [n2b 122]; g_ver := 1; g_conf := 1 |}; r_state := 0 |} in
+  let s := {| smem := [p]; sdisk := [p] |} in
+  partition_b (smem s) = true /\
+  split_unhosted s 1 [n2b 109] ch = (s, false) /\
+  fst (split s 1 [n2b 109] ch) <> s.
+Proof. exact failed_split_example. Qed.
+
 (** A removal takes away exactly the removed region's keys. *)
 Theorem C24_partition_remove : forall s id s',
   partition (smem s) -> remove_region s id = Some s' ->
